@@ -17,7 +17,7 @@ import concurrent.futures as cf
 HERE = os.path.dirname(os.path.dirname(os.path.abspath(__file__)))
 
 
-def digest(prop, seed, runs, workers=None, hashseed=None, start=0):
+def digest(prop, seed, runs, workers=None, hashseed=None, start=0, want_hs=False):
     env = dict(os.environ)
     env['VERIF_SEED'] = str(seed)
     env.pop('PYTHONHASHSEED', None)
@@ -30,9 +30,11 @@ def digest(prop, seed, runs, workers=None, hashseed=None, start=0):
         cmd += ['--workers', str(workers)]
     p = subprocess.run(cmd, env=env, cwd=HERE, capture_output=True, text=True, timeout=1800)
     lines = [l for l in p.stdout.splitlines() if len(l) == 64 and all(c in '0123456789abcdef' for c in l)]
-    if p.returncode == 2 or not lines:
+    hs = [l[3:] for l in p.stdout.splitlines() if l.startswith('hs:')]
+    if p.returncode == 2 or not lines or not hs:
         return f'ERROR rc={p.returncode} {p.stderr[-400:]}'
-    return lines[-1]
+    # full digest for same-interpreter-environment legs; hash-insensitive digest when PYTHONHASHSEED differs
+    return hs[-1] if hashseed is not None or want_hs else lines[-1]
 
 
 def main():
@@ -50,6 +52,7 @@ def main():
             jobs.append((prop, seed, 'again', dict(workers=None)))
             jobs.append((prop, seed, 'w1', dict(workers=1)))
             if mode != 'smoke' or s == 0:
+                jobs.append((prop, seed, 'a_hs', dict(workers=None, want_hs=True)))
                 jobs.append((prop, seed, 'hashseed', dict(workers=3, hashseed=12345 + s)))
     res = {}
     with cf.ThreadPoolExecutor(max_workers=4 if mode != 'smoke' else 3) as ex:
@@ -61,8 +64,9 @@ def main():
         for s in range(nseeds):
             seed = 1000 + 7919 * s
             ds = {tag: res[(prop, seed, tag)] for (p, sd, tag, _) in jobs if p == prop and sd == seed}
-            vals = set(ds.values())
-            ok = len(vals) == 1 and not next(iter(vals)).startswith('ERROR')
+            same_env = {v for t, v in ds.items() if t in ('a', 'again', 'w1')}
+            cross = {v for t, v in ds.items() if t in ('a_hs', 'hashseed')}
+            ok = len(same_env) == 1 and len(cross) <= 1 and not any(v.startswith('ERROR') for v in ds.values())
             if not ok:
                 bad += 1
                 print(f'NONDETERMINISM property={prop} seed={seed}: {ds}')
